@@ -6,6 +6,10 @@
 // no diagnostics / panic, File.Bytes() has the source's token sequence and
 // equals hclwrite.Format(src), and the tree exposes every attribute, block,
 // label and variable reference that the hclsyntax reading of the source has.
+// The loading API's start position (where the first byte of src sits in a
+// larger document) is a further dimension: a stated subset of the corpus is
+// also loaded with non-initial start positions and must load, save and expose
+// exactly what the load with hcl.InitialPos does (the tree holds no positions).
 package main
 
 import (
@@ -28,13 +32,67 @@ import (
 type Data struct {
 	Src  string `json:"src"`
 	Base string `json:"base,omitempty"` // informational: corpus base the layout was derived from
+	// Starts lists the additional start positions (third argument of
+	// hclwrite.ParseConfig) the text is also loaded with; hcl.InitialPos is
+	// always loaded first.
+	Starts []Start `json:"starts,omitempty"`
 }
+
+// Start is a JSON-friendly hcl.Pos.
+type Start struct {
+	Line   int `json:"line"`
+	Column int `json:"column"`
+	Byte   int `json:"byte"`
+}
+
+func (s Start) pos() hcl.Pos { return hcl.Pos{Line: s.Line, Column: s.Column, Byte: s.Byte} }
+
+// startAlphabet is the start-position dimension of the public loading API
+// (ParseConfig(src, filename, start): "start" is the position of the first
+// byte of src within a larger document). Byte offsets smaller than, inside
+// and beyond the corpus texts; a column offset on the first line; a
+// line/column-only offset (Byte 0); all three moved at once.
+var startAlphabet = []Start{
+	{Line: 1, Column: 1, Byte: 7},
+	{Line: 5, Column: 3, Byte: 40},
+	{Line: 2, Column: 1, Byte: 1},
+	{Line: 4, Column: 2, Byte: 0},
+	{Line: 100, Column: 1, Byte: 4096},
+}
+
+// startsFor is the stated subset: which start positions an entry is loaded
+// with besides hcl.InitialPos.
+//
+//	quick:    base texts (and their CRLF/BOM twins): the whole alphabet;
+//	          single-gap deviations: the first element (byte offset 7);
+//	          pair deviations: none.
+//	thorough: base texts and single-gap deviations: the whole alphabet;
+//	          pair deviations: the first three elements.
+func startsFor(tier string, edits int) []Start {
+	if tier == "thorough" {
+		if edits <= 1 {
+			return startAlphabet
+		}
+		return startAlphabet[:3]
+	}
+	switch edits {
+	case 0:
+		return startAlphabet
+	case 1:
+		return startAlphabet[:1]
+	}
+	return nil
+}
+
+const startsRule = "Start-position dimension: besides hcl.InitialPos every text is also loaded with hclwrite.ParseConfig(src, filename, start) for start in " +
+	"S = [{1,1,7}, {5,3,40}, {2,1,1}, {4,2,0}, {100,1,4096}] ({Line,Column,Byte}); quick: base texts and twins with all of S, single-gap deviations with S[:1], pair deviations with none; " +
+	"thorough: base texts and single-gap deviations with all of S, pair deviations with S[:3]. "
 
 var counters engine.Counter
 
 func gen(tier string, emit func(engine.Case) bool) {
 	st := cfgcorpus.Enumerate(tier, func(e cfgcorpus.Entry) bool {
-		return emit(engine.Case{ID: e.ID, Data: Data{Src: e.Src, Base: e.Base}})
+		return emit(engine.Case{ID: e.ID, Data: Data{Src: e.Src, Base: e.Base, Starts: startsFor(tier, e.Edits)}})
 	})
 	counters.Add("corpus_bases", st.Bases)
 	counters.Add("corpus_bases_outside_domain", st.BasesRejected)
@@ -340,6 +398,141 @@ func compareBody(path string, wb *hclwrite.Body, nb *hclsyntax.Body, v *srcView,
 	return nil
 }
 
+// dumpBody writes everything the writer tree exposes through its public API:
+// the body's full token stream (types, bytes, spacing), and for every
+// attribute (in name order) its own tokens, its expression's tokens and the
+// tokens of every variable traversal; for every block (in order) its type,
+// labels, own tokens and, recursively, its body.
+func dumpBody(w *strings.Builder, b *hclwrite.Body) {
+	dumpToks := func(ts hclwrite.Tokens) {
+		for _, t := range ts {
+			fmt.Fprintf(w, "%d:%d:%q ", int(t.Type), t.SpacesBefore, t.Bytes)
+		}
+	}
+	w.WriteString("body[")
+	dumpToks(b.BuildTokens(nil))
+	w.WriteString("]")
+	attrs := b.Attributes()
+	names := make([]string, 0, len(attrs))
+	for n := range attrs {
+		names = append(names, n)
+	}
+	sort.Strings(names)
+	for _, n := range names {
+		a := attrs[n]
+		fmt.Fprintf(w, "attr %q same=%v [", n, b.GetAttribute(n) == a)
+		dumpToks(a.BuildTokens(nil))
+		w.WriteString("] expr[")
+		if e := a.Expr(); e != nil {
+			dumpToks(e.BuildTokens(nil))
+			for _, tr := range e.Variables() {
+				w.WriteString("] var[")
+				dumpToks(tr.BuildTokens(nil))
+			}
+		} else {
+			w.WriteString("nil")
+		}
+		w.WriteString("]")
+	}
+	for _, bl := range b.Blocks() {
+		fmt.Fprintf(w, "block %q %q [", bl.Type(), bl.Labels())
+		dumpToks(bl.BuildTokens(nil))
+		w.WriteString("]{")
+		dumpBody(w, bl.Body())
+		w.WriteString("}")
+	}
+}
+
+func firstDiff(a, b string) int {
+	i := 0
+	for i < len(a) && i < len(b) && a[i] == b[i] {
+		i++
+	}
+	return i
+}
+
+func excerpt(s string, at int) string {
+	lo, hi := at-60, at+60
+	if lo < 0 {
+		lo = 0
+	}
+	if hi > len(s) {
+		hi = len(s)
+	}
+	return s[lo:hi]
+}
+
+// startClass names the aspect of the start position that differs from
+// hcl.InitialPos.
+func startClass(st Start) string {
+	if st.Byte != 0 {
+		return "c10.start-pos-nonzero-byte"
+	}
+	return "c10.start-pos-line-column-only"
+}
+
+// judgeStarts: the start position only says where the first byte of src sits
+// in a larger document; the writer tree exposes no positions, so a load with
+// any start must succeed like the load with hcl.InitialPos (which has already
+// passed every clause against the reference reading) and give the same saved
+// bytes and the same exposed tree.
+func judgeStarts(d Data, src []byte, f0 *hclwrite.File, got0 []byte) *treeFail {
+	if len(d.Starts) == 0 {
+		return nil
+	}
+	var ref strings.Builder
+	dumpBody(&ref, f0.Body())
+	for _, st := range d.Starts {
+		var f *hclwrite.File
+		var wdiags hcl.Diagnostics
+		var panicMsg, stage string
+		var dump strings.Builder
+		var got []byte
+		func() {
+			defer func() {
+				if r := recover(); r != nil {
+					panicMsg = fmt.Sprint(r)
+				}
+			}()
+			stage = "load"
+			f, wdiags = hclwrite.ParseConfig(src, "src.hcl", st.pos())
+			if wdiags.HasErrors() || f == nil {
+				return
+			}
+			stage = "save"
+			got = f.Bytes()
+			stage = "tree-walk"
+			dumpBody(&dump, f.Body())
+		}()
+		counters.Add("start_positions_loaded", 1)
+		cls := startClass(st)
+		switch {
+		case panicMsg != "":
+			return &treeFail{cls + "." + stage + "-panic", fmt.Sprintf("hclwrite.ParseConfig(src, _, %+v): %s panics: %s (with hcl.InitialPos everything succeeds)", st, stage, panicMsg)}
+		case wdiags.HasErrors() || f == nil:
+			return &treeFail{cls + ".load-rejects-valid", fmt.Sprintf("hclwrite.ParseConfig(src, _, %+v) fails (file nil=%v): %s (with hcl.InitialPos it succeeds)", st, f == nil, wdiags.Error())}
+		case !bytes.Equal(got, got0):
+			// which construct: do the saved texts differ in their tokens or only
+			// in spacing, and is there any token at all in the source?
+			kind := ".saved-tokens-differ"
+			ta, _, _ := cfgcorpus.Lex(got)
+			tb, _, _ := cfgcorpus.Lex(got0)
+			if cfgcorpus.SameToks(ta, tb) {
+				kind = ".saved-spacing-differs"
+				if len(tb) == 1 { // EOF only
+					kind += ".token-free-file"
+				}
+			}
+			return &treeFail{cls + kind, fmt.Sprintf("loaded with start %+v the unmodified tree saves as %q, loaded with hcl.InitialPos as %q", st, got, got0)}
+		case dump.String() != ref.String():
+			a, b := dump.String(), ref.String()
+			at := firstDiff(a, b)
+			return &treeFail{cls + ".exposed-tree-differs", fmt.Sprintf("loaded with start %+v the tree exposes different attributes/blocks/labels/traversals/tokens than with hcl.InitialPos; first difference at dump offset %d: %q vs %q", st, at, excerpt(a, at), excerpt(b, at))}
+		}
+	}
+	return nil
+}
+
 func judge(c engine.Case) engine.Outcome {
 	d := c.Data.(Data)
 	src := []byte(d.Src)
@@ -402,6 +595,10 @@ func judge(c engine.Case) engine.Outcome {
 	if tf != nil {
 		return engine.Fail(tf.class, "tree of %q: %s", src, tf.msg)
 	}
+	// Clause 4: none of this depends on the start position given to the loader.
+	if tf := judgeStarts(d, src, f, got); tf != nil {
+		return engine.Fail(tf.class, "%q: %s", src, tf.msg)
+	}
 	if !bytes.Equal(src, got) {
 		counters.Add("inputs_changed_by_save", 1)
 	}
@@ -416,7 +613,7 @@ func shrink(c engine.Case) []engine.Case {
 	var out []engine.Case
 	add := func(s string) {
 		if s != d.Src {
-			out = append(out, engine.Case{ID: "shrunk:" + fmt.Sprintf("%q", s), Data: Data{Src: s, Base: d.Base}})
+			out = append(out, engine.Case{ID: "shrunk:" + fmt.Sprintf("%q", s), Data: Data{Src: s, Base: d.Base, Starts: d.Starts}})
 		}
 	}
 	lines := strings.SplitAfter(d.Src, "\n")
@@ -464,6 +661,7 @@ func main() {
 			"every base also with CRLF line endings. Layout deviations: each gap between adjacent tokens is replaced by each of {none, space, two spaces, tab, newline, /*c*/, #c<nl>, //c<nl>}, " +
 			"keeping the variants that still parse without errors and scan to the base's tokens plus the inserted newline/comment tokens. " +
 			"quick: " + cfgcorpus.PlanFor("quick").String() + ". thorough: " + cfgcorpus.PlanFor("thorough").String() + ". " +
+			startsRule +
 			"Non-trivial = the input is an error-free configuration; distinct = distinct (saved text, attribute/block/label/variable listing).",
 		Assumptions: []string{
 			"hclsyntax.LexConfig and hclsyntax.ParseConfig define the input domain and the reference reading (attribute names, block types, labels, variable traversals and their source ranges)",
